@@ -22,6 +22,7 @@
 #include <cstdarg>
 #include <functional>
 
+#include <malloc.h>
 #include "hcommon.h"
 
 extern "C" {
@@ -1016,12 +1017,22 @@ uint64_t ceilto64b(uint64_t size);
 
 namespace {
 
-void case_buffers(Out& out, Rng& rng, int kind, uint32_t m, uint32_t nbuf) {
+void case_buffers(Out& out, Rng& rng, int kind, uint32_t m, uint32_t nbuf, int want_mod64 = -1) {
   const char* KN[] = {"reim_fft", "reim_ifft", "cplx_fft", "cplx_ifft"};
   fprintf(out.ops, "ca nop get_buffer %s m=%u num_buffers=%u", KN[kind], m, nbuf);
   fprintf(out.real, "nop");
-  void* tab = kind == 0 ? (void*)new_reim_fft_precomp(m, nbuf) : kind == 1 ? (void*)new_reim_ifft_precomp(m, nbuf)
-            : kind == 2 ? (void*)new_cplx_fft_precomp(m, nbuf) : (void*)new_cplx_ifft_precomp(m, nbuf);
+  auto mk = [&]() { return kind == 0 ? (void*)new_reim_fft_precomp(m, nbuf) : kind == 1 ? (void*)new_reim_ifft_precomp(m, nbuf)
+                         : kind == 2 ? (void*)new_cplx_fft_precomp(m, nbuf) : (void*)new_cplx_ifft_precomp(m, nbuf); };
+  void* tab = mk();
+  // a table whose address has a given residue modulo 64 (the alignment padding inside the block depends on it):
+  // keep the misses alive so that the allocator hands out other addresses
+  std::vector<void*> misses;
+  for (int t = 0; want_mod64 >= 0 && (int)((uintptr_t)tab % 64) != want_mod64 && t < 300; t++) {
+    misses.push_back(tab);
+    if (t % 3 == 0) misses.push_back(malloc(16));
+    tab = mk();
+  }
+  for (void* q : misses) free(q);
   std::vector<uint8_t*> b(nbuf);
   for (uint32_t i = 0; i < nbuf; i++)
     b[i] = kind == 0 ? (uint8_t*)reim_fft_precomp_get_buffer((REIM_FFT_PRECOMP*)tab, i)
@@ -1030,7 +1041,12 @@ void case_buffers(Out& out, Rng& rng, int kind, uint32_t m, uint32_t nbuf) {
                      : (uint8_t*)cplx_ifft_precomp_get_buffer((CPLX_IFFT_PRECOMP*)tab, i);
   std::string verdict = "ok";
   const uint64_t bytes = 16ull * m;
+  out.count("table_addr_mod64_" + std::to_string((uintptr_t)tab % 64));
   for (uint32_t i = 0; i < nbuf && verdict == "ok"; i++) {
+    // inside the table's own allocation, whatever the residue of its address modulo 64
+    if (b[i] < (uint8_t*)tab || b[i] + bytes > (uint8_t*)tab + malloc_usable_size(tab))
+      verdict = fmt("FAIL C11 %s_precomp_get_buffer(%u) [m=%u, %u buffers, table at address = %u mod 64] ends %ld bytes past the table's allocation", KN[kind], i, m, nbuf,
+                    (unsigned)((uintptr_t)tab % 64), (long)((b[i] + bytes) - ((uint8_t*)tab + malloc_usable_size(tab))));
     if ((uintptr_t)b[i] % 64) verdict = fmt("FAIL C15 %s_precomp_get_buffer(%u) is not 64-byte aligned", KN[kind], i);
     for (uint32_t j = 0; j < i; j++)
       if (b[i] < b[j] + bytes && b[j] < b[i] + bytes) verdict = fmt("FAIL C15 %s_precomp_get_buffer: buffers %u and %u overlap", KN[kind], j, i);
@@ -1132,5 +1148,8 @@ STREAM(cv_misc) {
       for (uint32_t nbuf : {0u, 1u, 2u, 5u}) {
         if (!thorough && m > 16 && nbuf == 5) continue;
         case_buffers(out, rng, kind, m, nbuf);
+        // the same with the table at every residue of its address modulo 64 that malloc can produce
+        if (nbuf && m <= 16)
+          for (int want : {0, 16, 32, 48}) case_buffers(out, rng, kind, m, nbuf, want);
       }
 }
